@@ -508,6 +508,13 @@ func installFilters(fc filterCfg, flog *[]string) {
 		tars.UseClientFilterMiddleware(cmw("mw-a"))
 	case "mw2":
 		tars.UseClientFilterMiddleware(cmw("mw-a"), cmw("mw-b"))
+	// second registrations, made after calls have been served (see lateFilterScenario)
+	case "late-pre":
+		tars.RegisterPreClientFilter(cf("pre-b", false))
+	case "late-post":
+		tars.RegisterPostClientFilter(cf("post-b", false))
+	case "late-mw":
+		tars.UseClientFilterMiddleware(cmw("mw-b"))
 	}
 	sf := func(name string, call bool) tars.ServerFilter {
 		return func(ctx context.Context, d tars.Dispatch, f interface{}, req *requestf.RequestPacket, resp *requestf.ResponsePacket, withContext bool) error {
@@ -545,6 +552,12 @@ func installFilters(fc filterCfg, flog *[]string) {
 		tars.UseServerFilterMiddleware(smw("mw-a"))
 	case "mw2":
 		tars.UseServerFilterMiddleware(smw("mw-a"), smw("mw-b"))
+	case "late-pre":
+		tars.RegisterPreServerFilter(sf("pre-b", false))
+	case "late-post":
+		tars.RegisterPostServerFilter(sf("post-b", false))
+	case "late-mw":
+		tars.UseServerFilterMiddleware(smw("mw-b"))
 	}
 }
 
